@@ -373,7 +373,7 @@ def build_tap(wd):
     srcs = ['tap.cpp', 'functions.cpp', 'instance.cpp'] + [build.TUS[t] for t in build.ALL_NATIVE] + ['kerl/kerl.c']
     def one(s):
         o = os.path.join(wd, 'tapt_' + s.replace('/', '_') + '.o')
-        if s.endswith('.c'): cmd = ['gcc', '-std=gnu99', '-O1', '-w', '-I' + build.REPO, '-I' + build.REPO + '/kerl', '-c', os.path.join(build.REPO, s), '-o', o]
+        if s.endswith('.c'): cmd = ['gcc', '-std=gnu99', '-O1', '-w', '-DHAVE_CONFIG_H', '-I' + build.REPO, '-I' + build.REPO + '/config', '-I' + build.REPO + '/kerl', '-c', os.path.join(build.REPO, s), '-o', o]
         else: cmd = ['g++', '-std=c++17', '-O1', '-w', '-I' + build.REPO, '-I' + build.REPO + '/secp256k1/include', '-DHAVE_CONFIG_H', '-c', os.path.join(build.REPO, s), '-o', o]
         r = subprocess.run(cmd, stdout=subprocess.PIPE, stderr=subprocess.STDOUT, text=True)
         if r.returncode: raise build.BuildError(r.stdout[-2000:])
@@ -381,7 +381,7 @@ def build_tap(wd):
     with cf.ThreadPoolExecutor(16) as ex: objs = list(ex.map(one, srcs))
     secp = os.path.join(wd, 'secp_pic.a')
     out = os.path.join(wd, 'tap')
-    r = subprocess.run(['g++', '-o', out] + objs + [secp], stdout=subprocess.PIPE, stderr=subprocess.STDOUT, text=True)
+    r = subprocess.run(['g++', '-o', out] + objs + [secp, '-lreadline'], stdout=subprocess.PIPE, stderr=subprocess.STDOUT, text=True)
     if r.returncode: raise build.BuildError(r.stdout[-2000:])
     _BIN[wd] = out; return out
 
